@@ -2,6 +2,8 @@ SPECIFICATION SimSpec
 CONSTANTS
   WorkerCpus <- D_Workers
   WorkerGroup <- D_Groups
+  WorkerLife <- D_Life
+  MaxTicks = 0
   Menu <- D_Menu
   OpenJobs <- D_Open
   Classes <- D_Classes
